@@ -84,6 +84,13 @@ STATEMENTS = [
     ("branch-types", "let bad = match w17a { 0u8 => w17a, _ => w17t };"),
     ("branch-types", "let bad = match w17t { true => w17a, false => w17b };"),
     ("branch-types", "let bad = match w17e { E17::A => 1u8, E17::B(x17) => x17, E17::C(x17, y17) => y17 };"),
+    ("branch-types", "let bad = match w17a { 0u8 => w17t, _ => w17a };"),
+    ("branch-types", "let bad = match w17t { true => w17a, false => w17a < 3u8 };"),
+    ("branch-types", "let bad = match w17t { true => w17a, false => w17t && w17t };"),
+    ("branch-types", "let bad = match w17a { 0u8 => w17p, _ => w17s };"),
+    ("branch-types", "let bad = match w17a { 0u8 => w17arr, 1u8 => w17arr, _ => w17a };"),
+    ("branch-types", "let bad = match w17a { 0u8 => w17e, _ => w17t };"),
+    ("branch-types", "let bad = match w17a { 0u8 => (w17a, w17t), _ => (w17t, w17a) };"),
     ("condition", "let bad = if w17a { 1u8 } else { 2u8 };"),
     ("condition", "let bad = if w17s { 1u8 } else { 2u8 };"),
     ("condition", "if w17i { w17m = 1u8; } else { w17m = 2u8; }"),
@@ -94,6 +101,10 @@ STATEMENTS = [
     ("unknown-identifier", "if w17t { let inner17 = w17a; } else { () } let bad = inner17;"),
     ("unknown-identifier", "for inner17 in w17arr { w17m = inner17; } let bad = inner17;"),
     ("unknown-identifier", "let bad = match w17e { E17::B(inner17) => inner17, _ => 0u8 } + inner17;"),
+    ("unknown-identifier", "let bad = match w17e { E17::B(inner17) => inner17, _ => inner17 };"),
+    ("unknown-identifier", "let bad = match w17e { E17::C(inner17, other17) => inner17, E17::B(x17) => other17, _ => 0u8 };"),
+    ("unknown-identifier", "let bad = match w17p { (inner17, true) => inner17, _ => inner17 };"),
+    ("branch-types", "let bad = match w17e { E17::C(w17a, other17) => other17, E17::B(x17) => w17a, _ => 0u8 };"),
     ("unknown-identifier", "let bad = w17s.nofield;"),
     ("unknown-identifier", "let bad = E17::Nowhere;"),
     ("unknown-identifier", "let bad = E17::Nowhere(w17a);"),
